@@ -189,7 +189,7 @@ impl ZerokitMerkleTree for PmTree {
         self.tree
             .set_range(start, v.clone().into_iter())
             .map_err(|e| Report::msg(e.to_string()))?;
-        for i in start..v.len() {
+        for i in start..start + v.len() {
             self.cached_leaves_indices[i] = 1
         }
         Ok(())
